@@ -426,6 +426,13 @@ def special_value(v):
         return StrictEq()
     if v == "WEIRDEQ":
         return WeirdEq()
+    if v == "OWNALL":
+        return _own_all
+    if v == "OWNALL_SKIPNONE":
+        return _own_all_skip_none
+    if v == "BUILTIN_ALL":
+        import builtins
+        return builtins.all
     if v == "FUNC":
         return make_env
     if v == "LAMBDA":
@@ -456,6 +463,17 @@ def special_value(v):
             r = [r, 1]
         return r
     return v
+
+
+def _own_all(iterable):
+    """a user's own `all`: not vacuously true"""
+    items = list(iterable)
+    return bool(items) and len(items) > 100
+
+
+def _own_all_skip_none(iterable):
+    """a user's own `all` that ignores None items"""
+    return not [1 for i in iterable if i is not None and not i]
 
 
 _A_LAMBDA = lambda q: q  # noqa: E731
